@@ -79,6 +79,7 @@ pub fn sub(args: &[String]) -> i32 {
     match args.first().map(String::as_str) {
         Some("probe") => probe(&args[1]),
         Some("hprobe") => hprobe(&args[1]),
+        Some("mirilane") => crate::mirilane::main(&args[1], args.get(2).and_then(|s| s.parse().ok()).unwrap_or(1)),
         Some("workload") => crate::crash::workload_main(&args[1], &args[2]),
         Some("recover") => crate::crash::recover_main(&args[1], &args[2]),
         _ => {
